@@ -356,4 +356,95 @@ theorem C03_borrow_chain (m : Mode) (n : Nat) (rc : Recv α) (h : rc.Sound n) (b
         obtain ⟨hs', hc'⟩ := i3 rc' hc
         exact ⟨hs', fun p hp => hc1 p (hc' p hp)⟩
 
+/-- the rectangle of the root buffer a receiver stands for -/
+def Recv.asVW : Recv α → VW
+  | .root t | .ext t => t.asView
+  | .vmut v | .vsh v => v
+
+/-- a slicing step on a view, in terms of `specView` -/
+private theorem spec_step (m : Mode) (v : VW) (n : Nat) (h : v.Inv n) (s e : Nat × Nat)
+    (hw : s.1 < WORD ∧ s.2 < WORD ∧ e.1 < WORD ∧ e.2 < WORD) (k : VW → Recv α) :
+    (v.view m s e >>= fun v' => (pure (some (k v')) : Res (Option (Recv α)))) =
+      (match specView v s e with | some v' => .ok (some (k v')) | none => .error .panic) ∧
+    (v.viewChecked m s e >>= fun v' => (pure (some (k v')) : Res (Option (Recv α)))) =
+      (match specView v s e with | some v' => .ok (some (k v')) | none => .error .panic) := by
+  obtain ⟨h1, h2⟩ := C03_spec_view m v n h s e hw
+  cases hsv : specView v s e with
+  | none =>
+    obtain ⟨a, b⟩ := h2 hsv
+    rw [a, b]; exact ⟨rfl, rfl⟩
+  | some v' =>
+    obtain ⟨a, b⟩ := h1 v' hsv
+    rw [a, b]; exact ⟨rfl, rfl⟩
+
+/-- the slice-based constructors on the array itself, exactly -/
+private theorem slice_spec (t : TD α) (h : t.Inv) (c r k : Nat) (f : VW → Recv α) :
+    (t.win.indexTo k >>= fun sl => VW.newMut c r sl >>= fun v => (pure (some (f v)) : Res (Option (Recv α)))) =
+      (if k ≤ t.data.length ∧ shapeOk c r ∧ c * r ≤ k then .ok (some (f ⟨⟨0, c * r⟩, c, r, c⟩)) else .error .panic) ∧
+    (t.win.indexTo k >>= fun sl => VW.newShared c r sl >>= fun v => (pure (some (f v)) : Res (Option (Recv α)))) =
+      (if k ≤ t.data.length ∧ shapeOk c r ∧ c * r ≤ k then .ok (some (f ⟨⟨0, c * r⟩, c, r, c⟩)) else .error .panic) := by
+  by_cases hk : k ≤ t.data.length
+  · have hi : t.win.indexTo k = .ok ⟨0, k⟩ := by simp [Win.indexTo, TD.win, hk]
+    rw [hi, ok_bind, ok_bind]
+    by_cases hok : shapeOk c r ∧ c * r ≤ k
+    · rw [if_pos ⟨hk, hok⟩]
+      obtain ⟨⟨hz, hp⟩, hl⟩ := hok
+      constructor
+      · simp [VW.newMut, (zeroRuleOk_iff c r).2 hz, cmul_some hp, hl, Win.getTo]
+      · simp [VW.newShared, (zeroRuleOk_iff c r).2 hz, cmul_some hp, hl, Win.indexTo]
+    · rw [if_neg (fun hh => hok hh.2)]
+      obtain ⟨h1, h2⟩ := (C20_view_new c r ⟨0, k⟩ t.data.length (by simpa using hk) h.word).2 hok
+      rw [h1, h2]; exact ⟨rfl, rfl⟩
+  · have hi : t.win.indexTo k = .error .panic := by simp [Win.indexTo, TD.win, hk]
+    rw [hi, if_neg (fun hh => hk hh.1)]; exact ⟨rfl, rfl⟩
+
+/-- **what a borrowing step produces** (so the dispatch in `Recv.borrow` is pinned, not only its safety): for every receiver kind
+    `view(s,e)` gives the shared view of exactly the window `specView` prescribes (C03_view_valid: size `end - start`, cells
+    `(start+c, start+r)` of the parent) or panics when `specView` rejects; `view_mut(s,e)` the mutable view of the same window
+    (not available on a shared view); the slice constructors accept exactly `n ≤ len ∧ shapeOk c r ∧ c*r ≤ n` and give the
+    row-major prefix view; `asExt` only re-labels an owned array. -/
+theorem C03_borrow_spec (m : Mode) (n : Nat) (rc : Recv α) (h : rc.Sound n) :
+    (∀ s e, s.1 < WORD ∧ s.2 < WORD ∧ e.1 < WORD ∧ e.2 < WORD →
+      rc.borrow m (.view s e) = (match specView rc.asVW s e with | some v' => .ok (some (.vsh v')) | none => .error .panic) ∧
+      rc.borrow m (.viewMut s e) =
+        (match rc with
+         | .vsh _ => .ok none
+         | _ => (match specView rc.asVW s e with | some v' => .ok (some (.vmut v')) | none => .error .panic))) ∧
+    (∀ c r k,
+      rc.borrow m (.sliceMut c r k) =
+        (match rc with
+         | .root t => if k ≤ t.data.length ∧ shapeOk c r ∧ c * r ≤ k then .ok (some (.vmut ⟨⟨0, c * r⟩, c, r, c⟩)) else .error .panic
+         | _ => .ok none) ∧
+      rc.borrow m (.slice c r k) =
+        (match rc with
+         | .root t => if k ≤ t.data.length ∧ shapeOk c r ∧ c * r ≤ k then .ok (some (.vsh ⟨⟨0, c * r⟩, c, r, c⟩)) else .error .panic
+         | _ => .ok none)) ∧
+    rc.borrow m .asExt = (match rc with | .root t => .ok (some (.ext t)) | _ => .ok none) := by
+  refine ⟨?_, ?_, ?_⟩
+  · intro s e hw
+    cases rc with
+    | root t =>
+      have hs := spec_step (α := α) m t.asView n (by rw [← h.2]; exact (TD.asView_inv t h.1).1) s e hw
+      exact ⟨by simp only [Recv.borrow, VW.fromTooDee_eq_view]; exact (hs Recv.vsh).1,
+        by simp only [Recv.borrow, VW.fromTooDee_eq_view]; exact (hs Recv.vmut).1⟩
+    | ext t =>
+      have hs := spec_step (α := α) m t.asView n (by rw [← h.2]; exact (TD.asView_inv t h.1).1) s e hw
+      exact ⟨by simp only [Recv.borrow, VW.fromTooDee_eq_view]; exact (hs Recv.vsh).1,
+        by simp only [Recv.borrow, VW.fromTooDee_eq_view]; exact (hs Recv.vmut).1⟩
+    | vmut v =>
+      have hs := spec_step (α := α) m v n h s e hw
+      exact ⟨by simp only [Recv.borrow]; exact (hs Recv.vsh).2, by simp only [Recv.borrow]; exact (hs Recv.vmut).1⟩
+    | vsh v =>
+      have hs := spec_step (α := α) m v n h s e hw
+      exact ⟨by simp only [Recv.borrow]; exact (hs Recv.vsh).1, by simp only [Recv.borrow]; rfl⟩
+  · intro c r k
+    cases rc with
+    | root t =>
+      have hs := slice_spec t h.1 c r k
+      exact ⟨by simp only [Recv.borrow]; exact (hs Recv.vmut).1, by simp only [Recv.borrow]; exact (hs Recv.vsh).2⟩
+    | ext t => exact ⟨rfl, rfl⟩
+    | vmut v => exact ⟨rfl, rfl⟩
+    | vsh v => exact ⟨rfl, rfl⟩
+  · cases rc <;> rfl
+
 end Toodee
